@@ -5,8 +5,11 @@
 //   filter:  A                         IncludeAll
 //            L:<xname>,<xname>,...     Allowlist            (x<hex> strings)
 //            T:<0|1>:<rule>,<rule>     custom table filter: rule = <m>/<k>/<v>/<0|1>, `*` = any
-//   event:   N<tid>:<id>:<c|r|p<ID>>:<name>=<val>,...   new span (names from {a,b,c,d}, distinct: picks the static callsite)
-//            R<tid>:<id>:<name>=<val>,...               span.record_all (undeclared names are dropped, as Span::record does)
+//   event:   N<tid>:<id>:<c|r|p<ID>>:<xname>=<val>,...  new span. Names are x<hex> UTF-8, distinct within a span. A name list that is an
+//                                                       ordered selection from {a,b,c,d} uses the static `span!` callsite of TABLE;
+//                                                       any other list (non-ASCII, empty name, ...) uses a callsite built at run time
+//                                                       from leaked &'static str names (dyn_meta) and Span::new / Span::child_of.
+//            R<tid>:<id>:<xname>=<val>,...              span.record_all (undeclared names are dropped, as Span::record does)
 //            E<tid>:<id>  X<tid>:<id>  D<tid>:<id>      enter / exit / drop the handle
 //            M<tid>:<c|g|h>:<xname>:<xk>=<xv>,...:<filter index>   register a metric through the TracingContext
 //   val:     e | s<hex> | b0|b1 | i<int> | u<int> | I<int> (i128) | d<hex> (?str) | p<hex> (%str)
@@ -110,6 +113,44 @@ static TABLE: &[(&[&str], Mk)] = &[
     cs!(d, c, b, a),
 ];
 
+// ---------------------------------------------------------------- run-time callsites (arbitrary field names)
+struct DynCallsite { meta: std::sync::OnceLock<tracing_core::Metadata<'static>> }
+impl tracing_core::Callsite for DynCallsite {
+    fn set_interest(&self, _: tracing_core::Interest) {}
+    fn metadata(&self) -> &tracing_core::Metadata<'_> { self.meta.get().expect("metadata set") }
+}
+fn dyn_meta(names: &[&str]) -> &'static tracing_core::Metadata<'static> {
+    static CACHE: Mutex<Option<HashMap<Vec<String>, &'static DynCallsite>>> = Mutex::new(None);
+    let mut g = CACHE.lock().unwrap();
+    let cache = g.get_or_insert_with(HashMap::new);
+    let k: Vec<String> = names.iter().map(|s| s.to_string()).collect();
+    if let Some(cs) = cache.get(&k) { return cs.meta.get().unwrap(); }
+    let leaked: Vec<&'static str> = k.iter().map(|s| &*Box::leak(s.clone().into_boxed_str())).collect();
+    let leaked: &'static [&'static str] = Box::leak(leaked.into_boxed_slice());
+    let cs: &'static DynCallsite = Box::leak(Box::new(DynCallsite { meta: std::sync::OnceLock::new() }));
+    let meta = tracing_core::Metadata::new("s", "c17", Level::INFO, None, None, None,
+        tracing_core::field::FieldSet::new(leaked, tracing_core::identify_callsite!(cs)), tracing_core::Kind::SPAN);
+    let _ = cs.meta.set(meta);
+    cache.insert(k, cs);
+    cs.meta.get().unwrap()
+}
+fn dyn_span(parent: Option<Option<Id>>, names: &[&str], v: &[&dyn Value]) -> Span {
+    let meta = dyn_meta(names);
+    let fs = meta.fields();
+    let fields: Vec<tracing::field::Field> = fs.iter().collect();
+    let p: Vec<(&tracing::field::Field, Option<&dyn Value>)> = fields.iter().zip(v.iter()).map(|(f, x)| (f, Some(*x))).collect();
+    macro_rules! go { ($arr:expr) => {{ let arr = $arr; let vs = fs.value_set(&arr); match parent { None => Span::new(meta, &vs), Some(par) => Span::child_of(par, meta, &vs) } }}; }
+    match p.len() {
+        0 => go!([] as [(&tracing::field::Field, Option<&dyn Value>); 0]),
+        1 => go!([p[0]]),
+        2 => go!([p[0], p[1]]),
+        3 => go!([p[0], p[1], p[2]]),
+        4 => go!([p[0], p[1], p[2], p[3]]),
+        5 => go!([p[0], p[1], p[2], p[3], p[4]]),
+        n => panic!("span with {} fields unsupported by the driver", n),
+    }
+}
+
 // ---------------------------------------------------------------- filters
 #[derive(Clone)]
 enum Filter {
@@ -200,7 +241,7 @@ fn boxed(v: &Val) -> Box<dyn Value + '_> {
 }
 fn parse_fields(s: &str) -> Vec<(String, Val)> {
     if s.is_empty() { return vec![]; }
-    s.split(',').map(|kv| { let (k, v) = kv.split_once('=').unwrap(); (k.to_string(), parse_val(v)) }).collect()
+    s.split(',').map(|kv| { let (k, v) = kv.split_once('=').unwrap(); (unhx(k), parse_val(v)) }).collect()
 }
 
 // ---------------------------------------------------------------- events
@@ -266,7 +307,6 @@ fn exec(ev: &Ev, sh: &Mutex<Shared>, ctxs: &[TracingContext<Log, Filter>]) {
             let mut sh = sh.lock().unwrap();
             if sh.ids.contains_key(id) { return; }
             let names: Vec<&str> = fields.iter().map(|(k, _)| k.as_str()).collect();
-            let mk = TABLE.iter().find(|(ns, _)| **ns == names[..]).unwrap_or_else(|| panic!("no callsite for {:?}", names)).1;
             let boxes: Vec<Box<dyn Value + '_>> = fields.iter().map(|(_, v)| boxed(v)).collect();
             let refs: Vec<&dyn Value> = boxes.iter().map(|b| &**b).collect();
             let parent = match par {
@@ -274,7 +314,10 @@ fn exec(ev: &Ev, sh: &Mutex<Shared>, ctxs: &[TracingContext<Log, Filter>]) {
                 Par::Root => Some(None),
                 Par::Exp(p) => Some(sh.handles.get(p).and_then(|s| s.id())),
             };
-            let span = mk(parent, &refs);
+            let span = match TABLE.iter().find(|(ns, _)| **ns == names[..]) {
+                Some((_, mk)) => mk(parent, &refs),
+                None => dyn_span(parent, &names, &refs),
+            };
             let sid = span.id().expect("span enabled");
             sh.ids.insert(*id, sid);
             sh.handles.insert(*id, span);
